@@ -14,6 +14,11 @@ def deep_stacks(r, thorough):
         for i in range(d - 1):
             lay.append(['clamp', 'backup', 'clamp', 'affine'][(i + d) % 4])
         out.append('/'.join(lay + ['identity.2.f32']))
+    # towers of ONE layer kind whose configurations all have the same C++ type (algebra::affine<N,T>): a helper that swaps
+    # two arguments still compiles there, and only the read-back shows it
+    for d in range(2, 11):
+        out.append('/'.join(['affine'] * (d - 1) + ['identity.1.f32']))
+    out += ['affine/affine/affine/affine/affine/identity.2.f64']
     out += ['clamp/clamp/clamp/identity.3.i32', 'backup/backup/constant.2.u64.2.f64', 'clamp/clamp/clamp/clamp/clamp/clamp/clamp/clamp/clamp/identity.1.f64',
             'affine/affine/affine/identity.2.f64', 'clamp/strided.2.u64/array.1.f32', 'backup/clamp/strided.3.u64/array.2.f64',
             'affine/linear.f32/clamp/backup/strided.2.u64/array.1.f32', 'clamp/nearest.f32/morton.2.u64.p/array.1.f32', 'backup/hilbert.u64/array.2.f64']
